@@ -5,6 +5,7 @@ automaton; ties K-search(find), K-trans, K-build).
 -/
 import Daac.Proofs.Glue
 import Daac.Proofs.SpecProps
+import Daac.Proofs.Rung2
 namespace Daac.Props.C02
 open Daac
 variable {V : Type} [DecidableEq V]
@@ -42,5 +43,27 @@ theorem spec_increasing (Ps : List (Pat V)) (hV : ValidPats Ps) (h : List Nat) :
     (specFind Ps h).Pairwise (fun a b => a.start < b.start ∧ a.stop < b.stop) := specFind_increasing hV h
 theorem spec_true_occurrences (Ps : List (Pat V)) (hV : ValidPats Ps) (h : List Nat) (m : Match V)
     (hm : m ∈ specFind Ps h) : IsOcc Ps h m := specFind_isOcc hV hm
+
+
+/-! ### Rung 2 — every pattern collection, every `num_free_blocks`, in the model of the builder
+
+`buildDA` is the model of `build_with_values` (Model/Trie.lean, Model/Nfa.lean, Model/Build.lean),
+tied to the implementation by suite K-build (byte-identical tables). The chain of proofs:
+insertion phase (Proofs/TrieFacts, NfaQueue) → fail links and outputs (Proofs/NfaStd, NfaLm, NfaG)
+→ layout with the ring-buffer helper, BASE uniqueness and CHECK sanitising (Proofs/HelperFacts,
+LayoutB, LayoutC, MapperFacts) → table semantics (Proofs/LayoutSem) → iterators (Rung 1). -/
+
+theorem find_correct_build_bytewise (nfb : Nat) (Ps : List (Pat V)) (hV : ValidPats Ps)
+    (hbytes : ∀ p ∈ Ps, ∀ b ∈ p.key, b < 256) (da : DA V)
+    (hb : buildDA .bytewise ⟨0, nfb⟩ (Ps.map lp) = .ok da) (h : List Nat) (hh : ∀ b ∈ h, b < 256) :
+    ∃ l fin, findAll da h = .ok (l, fin) ∧ l.map (·.1) = specFind Ps h :=
+  bytewise_find_correct nfb Ps hV hbytes da hb h hh
+
+theorem find_correct_build_charwise (nfb : Nat) (Q : List (List Nat × V)) (hQ : ScalarPats Q)
+    (hQ0 : Q ≠ []) (hnd : (Q.map (·.1)).Nodup) (da : DA V)
+    (hb : buildDA .charwise ⟨0, nfb⟩ (Q.map charPat) = .ok da) (t : List Nat) (ht : Scalars t) :
+    ∃ l fin, findAll da (encAll t) = .ok (l, fin) ∧
+      l.map (·.1) = specFind (Q.map bytePat) (encAll t) :=
+  charwise_find_correct nfb Q hQ hQ0 hnd da hb t ht
 
 end Daac.Props.C02
